@@ -33,6 +33,18 @@ def gen_traces(seed, profile, n, maxlabels):
     return traces
 
 
+def gen_traces_exh(k, depth=60, max_edges=300000):
+    """bounded-exhaustive thread-level exploration of scripted scenario k (one trace per edge)"""
+    p = subprocess.run([BIN, 'exh', str(k), str(depth), str(max_edges)],
+                       stdout=subprocess.PIPE, stderr=subprocess.PIPE, text=True, timeout=6000)
+    traces = [json.loads(l) for l in p.stdout.splitlines() if l.strip()]
+    for t in traces:
+        t['profile'] = 'exh%d' % k
+    if p.returncode != 0:
+        raise RuntimeError('exhaustive exploration failed: %s' % p.stderr[-500:])
+    return traces
+
+
 def gen_traces_h2(seed, n, maxlabels):
     """task-level traces on a paused tokio clock (pool with a runtime; timeouts can fire)"""
     p = subprocess.run([BIN2, 'gen', str(seed), str(n), str(maxlabels)],
@@ -46,12 +58,19 @@ def gen_traces_h2(seed, n, maxlabels):
     return traces
 
 
-def run_stress(n):
-    """free-running races on real threads (search aid for windows without a schedule point)"""
-    p = subprocess.run([BIN, 'stress', str(n)], stdout=subprocess.PIPE, stderr=subprocess.PIPE, text=True, timeout=3000)
-    if p.returncode != 0:
-        raise RuntimeError('stress run failed: %s' % p.stderr[-500:])
-    return json.loads(p.stdout.strip().splitlines()[-1])
+def run_stress(n, seed=1):
+    """free-running races on real threads (search aid for windows without a schedule point):
+    four targeted pairs plus random pairs of operations on random reachable states, each followed
+    by the at-rest clauses of the properties checked through the public API"""
+    out = dict(runs=0, fails=[])
+    for args in (['stress', str(n)], ['stress2', str(seed), str(4 * n)]):
+        p = subprocess.run([BIN] + args, stdout=subprocess.PIPE, stderr=subprocess.PIPE, text=True, timeout=3000)
+        if p.returncode != 0:
+            raise RuntimeError('stress run failed: %s' % p.stderr[-500:])
+        r = json.loads(p.stdout.strip().splitlines()[-1])
+        out['runs'] += r['runs']
+        out['fails'] += r['fails']
+    return out
 
 
 def build_table():
@@ -528,6 +547,11 @@ def run_engine(seed, tier):
     for bi, (profile, n, ml) in enumerate(batches(tier)):
         traces += gen_traces(seed * 1000 + bi, profile, n, ml)
     traces += gen_traces_h2(seed * 1000 + 77, 2500 if tier == 'thorough' else 160, 45)
+    exh_done = []
+    for k in ((0, 1, 2, 3, 4, 5) if tier == 'thorough' else (0, 1, 3)):
+        ex = gen_traces_exh(k)
+        exh_done.append(dict(scenario=k, edges=len(ex)))
+        traces += ex
     table = build_table()
     t1 = time.time()
     # fast path: the comparison of the full observation runs inside Coq; only for traces that
@@ -549,7 +573,8 @@ def run_engine(seed, tier):
                 trace=-1, step=0, msg='build() with timeouts code %d, runtime %d returned %d, expected %d'
                 % (row['code'], row['runtime'], row['result'], want)))
     res['build_table_rows'] = len(table)
-    st = run_stress(60000 if tier == 'thorough' else 5000)
+    res['exhaustive_scenarios'] = exh_done
+    st = run_stress(60000 if tier == 'thorough' else 5000, seed)
     res['stress_runs'] = st['runs']
     for f in st['fails']:
         pid = f.split(' ', 1)[0]
